@@ -173,6 +173,26 @@ func isByteArray(t types.Type) (int, bool) {
 	return 0, false
 }
 
+// intElemWidth: element width if t is an array or slice of fixed-width
+// integers (8, 16, 32, 64 bits; not bool): such containers are SMT arrays and
+// may be indexed symbolically.
+func intElemWidth(t types.Type) (int, bool) {
+	var et types.Type
+	switch u := t.Underlying().(type) {
+	case *types.Array:
+		et = u.Elem()
+	case *types.Slice:
+		et = u.Elem()
+	default:
+		return 0, false
+	}
+	w, _, ok := intWidth(et)
+	if !ok || w == 0 {
+		return 0, false
+	}
+	return w, true
+}
+
 func isByteSlice(t types.Type) bool {
 	a, ok := t.Underlying().(*types.Slice)
 	if !ok {
@@ -209,8 +229,8 @@ func (e *Exec) zero(t types.Type) Value {
 		}
 		return s
 	case *types.Array:
-		if n, ok := isByteArray(t); ok {
-			return &BytesV{arr: e.st.ConstArr(bytesSort, 0), n: n}
+		if ew, ok := intElemWidth(t); ok {
+			return &BytesV{arr: e.st.ConstArr(ArrSort(64, ew), 0), n: int(u.Len())}
 		}
 		a := &ArrayV{e: make([]Value, int(u.Len()))}
 		for i := range a.e {
@@ -258,8 +278,8 @@ func (e *Exec) havoc(t types.Type, name string) Value {
 		}
 		return s
 	case *types.Array:
-		if n, ok := isByteArray(t); ok {
-			return &BytesV{arr: e.st.Var(name, bytesSort), n: n}
+		if ew, ok := intElemWidth(t); ok {
+			return &BytesV{arr: e.st.Var(name, ArrSort(64, ew)), n: int(u.Len())}
 		}
 		a := &ArrayV{e: make([]Value, int(u.Len()))}
 		for i := range a.e {
